@@ -481,6 +481,71 @@ package nfa
 //@   ensures nxt == hi + 1
 //@   ensures off(c.builder.states) == 0
 
+// surrogates are never covered: after U+D7FF the next code point to cover is U+E000
+//@ spec func skipS(x int) int = ite(0xD800 <= x && x <= 0xDFFF, 0xE000, x)
+
+//@ func (*Compiler).compileUTF83ByteRange
+//@   props C15
+//@   opt safety=off
+//@   opt frame=off
+//@   opt check_requires=compileUTF83ByteRangeSimple
+//@   opt dead_returns=1
+//@   requires bOK(c)
+//@   requires 0x800 <= lo && lo <= hi && hi <= 0xFFFF
+//@   modifies c.builder.states, c.builder.states[*], c.builder.byteClassSet.*
+//@   ghost var nxt = skipS(lo)
+//@   after call compileUTF83ByteRangeSimple#1: lastarg1 == nxt
+//@   after call compileUTF83ByteRangeSimple#1: ghost nxt = skipS(lastarg2 + 1)
+//@   after call compileUTF83ByteRangeSimple#2: lastarg1 == nxt
+//@   after call compileUTF83ByteRangeSimple#2: ghost nxt = skipS(lastarg2 + 1)
+//@   after call compileUTF83ByteRangeSimple#3: lastarg1 == nxt
+//@   after call compileUTF83ByteRangeSimple#3: ghost nxt = skipS(lastarg2 + 1)
+//@   ensures nxt == skipS(old(hi) + 1)
+//@   ensures off(c.builder.states) == 0
+
+// the recursive 4-byte splitting is not under contract (variable shifts and masks): ASSUMED to cover exactly [lo, hi]
+//@ trusted func (*Compiler).splitUTF84ByteRange
+//@   requires bOK(c)
+//@   requires 0x10000 <= lo && lo <= hi && hi <= 0x10FFFF
+//@   modifies c.builder.states, c.builder.states[*], c.builder.byteClassSet.*
+//@   ensures off(c.builder.states) == 0
+
+//@ func (*Compiler).compileUTF84ByteRange
+//@   props C15
+//@   opt safety=off
+//@   opt frame=off
+//@   opt check_requires=splitUTF84ByteRange
+//@   opt dead_returns=1
+//@   requires bOK(c)
+//@   requires 0x10000 <= lo && lo <= hi && hi <= 0x10FFFF
+//@   modifies c.builder.states, c.builder.states[*], c.builder.byteClassSet.*
+//@   ghost var nxt = lo
+//@   after call splitUTF84ByteRange: lastarg1 == nxt
+//@   after call splitUTF84ByteRange: ghost nxt = lastarg2 + 1
+//@   ensures nxt == old(hi) + 1
+//@   ensures off(c.builder.states) == 0
+
+// the dispatcher: sub-ranges handed to the per-length functions are adjacent, start at lo, end at hi, and each lies
+// inside the code-point range of its encoding length (the callee preconditions)
+//@ func (*Compiler).compileUTF8Range
+//@   props C15
+//@   opt safety=off
+//@   opt frame=off
+//@   opt check_requires=compileUTF81ByteRange,compileUTF82ByteRange,compileUTF83ByteRange,compileUTF84ByteRange
+//@   requires builderOK(c)
+//@   requires 0 <= lo && lo <= hi && hi <= 0x10FFFF
+//@   modifies c.builder.states, c.builder.states[*], c.builder.byteClassSet.*
+//@   ghost var nxt = lo
+//@   after call compileUTF81ByteRange: lastarg1 == nxt
+//@   after call compileUTF81ByteRange: ghost nxt = lastarg2 + 1
+//@   after call compileUTF82ByteRange: lastarg1 == nxt
+//@   after call compileUTF82ByteRange: ghost nxt = lastarg2 + 1
+//@   after call compileUTF83ByteRange: lastarg1 == nxt
+//@   after call compileUTF83ByteRange: ghost nxt = lastarg2 + 1
+//@   after call compileUTF84ByteRange: lastarg1 == nxt
+//@   after call compileUTF84ByteRange: ghost nxt = lastarg2 + 1
+//@   ensures nxt == old(hi) + 1
+
 // ---- character-class repetition searcher (C19): closed form = runs of table bytes ----
 
 //@ spec func ccWin(s *CharClassSearcher, h []byte, i int) bool = 0 <= i && i + s.minMatch <= len(h) && (forall k :: i <= k && k < i + s.minMatch ==> s.membership[h[k]])
